@@ -79,8 +79,24 @@ func (w *world) Run(t *rt.Tape, trace bool) *core.Result {
 	case 9:
 		unit = 2 * time.Minute
 	}
+	// One run in four happens on one host: every party listens on a port of its own, and the
+	// addresses are spelled the ways people spell them (":9000", "localhost:9000",
+	// "127.0.0.1:9000", "0.0.0.0:9000" to listen) - the leader's address as Create gets it and as
+	// each Join gets it need not be the same string.
+	oneHost := t.Choose(rt.SGen, 4) == 0
+	listenSp := []string{":%d", "127.0.0.1:%d", "localhost:%d", "0.0.0.0:%d"}
+	dialSp := []string{"127.0.0.1:%d", "localhost:%d", ":%d"}
+	leaderDial := make([]string, n)
 	for i := range ps {
 		ps[i] = &party{id: i, addr: fmt.Sprintf("party%d:9000", i)}
+		leaderDial[i] = "party0:9000"
+		if oneHost {
+			ps[i].addr = fmt.Sprintf(dialSp[t.Choose(rt.SGen, len(dialSp))], 9000+i)
+			if i == 0 {
+				ps[i].addr = fmt.Sprintf(listenSp[t.Choose(rt.SGen, len(listenSp))], 9000)
+			}
+			leaderDial[i] = fmt.Sprintf(dialSp[t.Choose(rt.SGen, len(dialSp))], 9000)
+		}
 		if t.Choose(rt.SGen, 2) == 1 {
 			joinDelay[i] = time.Duration(t.Choose(rt.SGen, 100)) * unit
 		}
@@ -118,13 +134,13 @@ func (w *world) Run(t *rt.Tape, trace bool) *core.Result {
 					if p.id == busy {
 						blocker, err := simnet.Listen("tcp", p.addr)
 						if err == nil {
-							if _, ferr := p2p.Join(ps[0].addr, p.addr, p.id, k); ferr != nil {
+							if _, ferr := p2p.Join(leaderDial[p.id], p.addr, p.id, k); ferr != nil {
 								rt.Reach("fail-then-carry-on.first-join-failed")
 							}
 							blocker.Close()
 						}
 					}
-					p.nw, p.joinErr = p2p.Join(ps[0].addr, p.addr, p.id, k)
+					p.nw, p.joinErr = p2p.Join(leaderDial[p.id], p.addr, p.id, k)
 					rt.Tracef("HARNESS party %d: Join returned err=%v", p.id, p.joinErr)
 				}
 				if p.joinErr != nil {
